@@ -180,14 +180,14 @@ class SymInt:
             q, r = z3.IntVal(q), z3.IntVal(r)
         else:
             key = (t.get_id(), o)
-            cache = e.__dict__.setdefault("_divcache", {})
+            cache = e._divcache
             if key in cache:
-                q, r = cache[key]
+                q, r, _t = cache[key]
             else:
                 q = e.fresh("q")
                 r = e.fresh("r")
                 e.add(z3.And(t == q * o + r, r >= 0, r < o))
-                cache[key] = (q, r)
+                cache[key] = (q, r, t)
         if neg:
             # a // -o  with a = -t : python floor semantics: (-t) // (-o) == t // o ; r' = -r
             return SymInt(q), SymInt(S(-r))
